@@ -70,6 +70,7 @@ def gen_C06(ctx):
     out += st_token_sample(ctx, ctx.n(4000, 500000), shapes, TOKENS_T, "c06-tok")
     out += st_builder(ctx, ctx.n(6000, 500000), ["S", "P", "CB", "CO", "M"], "c06-build", maxsteps=8)
     out += st_quals(ctx, ctx.n(4000, 300000), "c06-quals")
+    out += st_bsearch(ctx, ctx.n(1000, 100000), "c06-bsearch")
     out += st_cksum(ctx, ctx.n(3000, 300000), "c06-cksum", commas=True)
     out += st_long(ctx, shapes, "c06-long", every=ctx.tier == "thorough") + st_long_api(ctx)
     out += st_huge(ctx)
@@ -307,6 +308,7 @@ def gen_C11(ctx):
     out += st_qcmp(ctx, ctx.n(3000, 200000), "c11-qcmp")
     out += [c for c in st_long_api(ctx) if c["req"].startswith("quals ")]
     out += st_dup_keys(["S", "P"])
+    out += st_bsearch(ctx, ctx.n(2500, 200000), "c11-bsearch")
     return out
 
 
